@@ -21,7 +21,7 @@ var fixedHighs = []int{0, 1, 2, 0x7FFF, 0xFFFF}
 
 func gen(r *sim.Rng, tier string) *sim.Case {
 	c := &sim.Case{Params: map[string]int{}}
-	c.Params["dist"] = r.Pick(4, 2, 2, 2, 2, 2)
+	c.Params["dist"] = r.Pick(4, 2, 2, 2, 2, 2, 2)
 	// bucket keys of this run
 	nb := r.Range(1, 5)
 	if r.Pct(5) {
@@ -138,6 +138,8 @@ func towerWords(dist int, seed uint64) func() uint64 {
 			}
 		case 4:
 			bl = r.N(33)
+		case 6:
+			bl = n % 33
 		default:
 			bl = 32 - (n % 33)
 		}
